@@ -1,5 +1,6 @@
 import GarbleVerif.Proofs.PanicRec
 import GarbleVerif.Model.PanicReqs
+import GarbleVerif.Proofs.BitMain
 /-!
 # C02 — panic iff the source semantics fail; first failure wins; untaken code is silent
 
@@ -15,8 +16,13 @@ these operations from `PanicResult::ok()`), every condition wire and every input
 * `mux_panic` = `if s then t else f`: after a conditional the record is that of the path taken, so
   operations on the path not taken contribute nothing.
 
-The program-level part (source semantics vs. compiled circuit) is not yet a theorem; it is
-checked by the language-level correspondence (see the evidence file).
+Program level (`C02_program`, for the fragment of Model/BitSem.lean — every expression and statement form of the
+language except for-join loops, constants and multiplication by a negative literal): the panic state the compiled
+code ends with is `none` exactly when the source execution returns a value, and `some k` exactly when the source
+execution fails with `k` — the reason of the FIRST failing operation in evaluation order, because that is what the
+source semantics report; operations in branches not taken, arms not selected, short-circuited operands and loop
+iterations after a failure are compiled (they are in `bitStmts`) but contribute nothing. Source locations are not
+part of this model; reasons are.
 -/
 namespace GV
 open Builder
@@ -69,4 +75,38 @@ theorem C02_initial {b : Builder} (hb : WF b) : PInv b PanicSt.ok ∧ ∀ inp, a
 /-! ### non-vacuity: the invariant is inhabited by a record with a real condition in its cache -/
 example : raiseIf true [true] (raiseIf false [false] none) = some [true] := rfl
 
+
+namespace Bit
+open Src
+
+/-- **C02 at program level**: with enough fuel for the source execution to finish, the panic state of the compiled
+code is empty iff the execution returns a value, and names reason `k` iff the execution fails with `k` -/
+theorem C02_program (prog : Prog) (depth fuel : Nat) (env : Src.Env) (benv benv' : BEnv) (body : StmtList)
+    (t : VTy) (bits : List Bool) (p : P)
+    (henv : EnvRel env benv) (hbits : bitStmts ⟨callAt prog depth, prog.enum?⟩ benv body = some (t, bits, p, benv'))
+    (hfuel : evalStmts fuel prog env body ≠ .error .fuel) :
+    (p = none ↔ ∃ v env', evalStmts fuel prog env body = .ok (v, env')) ∧
+    (∀ k, p = some k ↔ evalStmts fuel prog env body = .error (.panic k)) := by
+  have h := (core_all prog ⟨callAt prog depth, prog.enum?⟩ (callAt_sound prog depth) fuel).2.1 body env benv _ bits p benv'
+    henv hbits
+  cases hev : evalStmts fuel prog env body with
+  | ok res =>
+    obtain ⟨v, env'⟩ := res
+    rw [hev] at h
+    obtain ⟨hp, _, _⟩ := h
+    subst hp
+    exact ⟨⟨fun _ => ⟨v, env', rfl⟩, fun _ => rfl⟩, fun k => ⟨fun hk => by simp at hk, fun hk => by simp at hk⟩⟩
+  | error er =>
+    rw [hev] at h
+    cases er with
+    | panic k0 =>
+      simp only [ResRel] at h
+      subst h
+      refine ⟨⟨fun hn => by simp at hn, fun ⟨_, _, hh⟩ => by simp at hh⟩, fun k => ⟨fun hk => ?_, fun hk => ?_⟩⟩
+      · simp only [Option.some.injEq] at hk; subst hk; rfl
+      · simp only [Except.error.injEq, Err.panic.injEq] at hk; subst hk; rfl
+    | stuck w => exact h.elim
+    | fuel => exact absurd hev hfuel
+
+end Bit
 end GV
